@@ -227,8 +227,12 @@ Definition g_lin : vec -> vec -> vec := fun x z => z.
 (* degree 1: prod(coefficients, X2); else degree * prod(coefficients * safe_div(base^d, base, 0), X2) *)
 Definition g_poly (d : nat) (c : A) : vec -> vec -> vec := fun x z =>
   if d =? 1 then z else vscale (mul (ofnat d) (safe_div (pow (add (dot x z) c) d) (add (dot x z) c))) z.
-(* MonomialKernel has no degree-1 short cut *)
+(* MonomialKernel: degree-1 short cut as in PolynomialKernel (since /repo commit 114dbcf3; before, the value at
+   <x,z> = 0 was safe_div(0,0,0) = 0 instead of 1) *)
 Definition g_mono (d : nat) : vec -> vec -> vec := fun x z =>
+  if d =? 1 then z else vscale (mul (ofnat d) (safe_div (pow (dot x z) d) (dot x z))) z.
+(* the gradient as coded before the repair, kept for the regression theorem *)
+Definition g_mono_old (d : nat) : vec -> vec -> vec := fun x z =>
   vscale (mul (ofnat d) (safe_div (pow (dot x z) d) (dot x z))) z.
 (* 2 gamma (sum_j W_ij z_j - (sum_j W_ij) x_i) with W = coefficients * expNorm, written per pair *)
 Definition g_gauss (g : A) : vec -> vec -> vec := fun x z =>
